@@ -545,6 +545,8 @@ def compare_field(kind, expected, got):
             return f"expected INFO table, got {got!r}"
         for key, (num, typ) in INFO_KEYS.items():
             g = got.get(key, "<absent>")
+            if g == "<absent>" and key not in expected:
+                continue    # a key this file's header does not declare (files written by an older generator)
             if typ == "Flag":
                 if bool(g) != (key in expected) or g == "<absent>":
                     return f"flag {key}: expected {key in expected}, got {g!r}"
